@@ -147,6 +147,8 @@ var _ = shared.NewCounter
 //@   requires okI(i)
 //@   decreases measure(i)
 //@   rank 1
+//@   only-writers [restart-counter-written-only-here C06] F:interpreter/context.Context.Restarts : restart
+//@   only-writers [cached-flag-written-only-by-the-lookup C06] F:interpreter/process.Process.Cached : ProcessRecv
 //@   ensures [log-once C06] logOnce(i, err)
 //@   ensures [bounded C06] err == nil ==> old(i.ctx.Restarts) < limitations.MaxVarnishRestarts
 //@   callassert [restart-bound C06] ProcessRecv: i.ctx.Restarts <= limitations.MaxVarnishRestarts && i.ctx.Restarts == old(i.ctx.Restarts) + 1
